@@ -30,7 +30,7 @@ EXHAUSTIVE_CLAIM = True
 NCANARY = 6
 HITS = []
 EVENTS = []
-STATE = {'active': False, 'installed': False, 'allowed_names': None, 'allowed_modules': None}
+STATE = {'active': False, 'installed': False, 'allowed_names': None, 'allowed_modules': None, 'allowed_tops': set()}
 CANARY_DIR = os.path.join(VERIF_DIR, '.work', 'canary')
 import tempfile
 TMPDIR = tempfile.gettempdir()
@@ -154,6 +154,9 @@ def install():
         mods |= set(sys.modules) - before
     STATE['allowed_names'] = names
     STATE['allowed_modules'] = mods
+    # lazily imported sub-modules of the standard library or of packages that are loaded anyway are not "code from the
+    # filter text"; anything from another top-level package is
+    STATE['allowed_tops'] = set(getattr(sys, 'stdlib_module_names', ())) | set(m.split('.')[0] for m in sys.modules)
 
 
 def probe_grid():
@@ -248,7 +251,8 @@ def check(case):
         if snap[k] != after[k]:
             diff = (set(after[k]) ^ set(snap[k])) if isinstance(snap[k], (frozenset, tuple)) else (snap[k], after[k])
             raise Violation('global-state-changed', case, '%s changed: %r' % (k, list(diff)[:5] if isinstance(diff, set) else diff), tags)
-    newmods = after['modules'] - snap['modules'] - STATE['allowed_modules']
+    newmods = set(m for m in after['modules'] - snap['modules'] - STATE['allowed_modules']
+                  if m.split('.')[0] not in STATE['allowed_tops'] or 'zzcanary' in m)
     if newmods:
         raise Violation('module-imported', case, 'new modules %r' % sorted(newmods)[:5], tags)
     d = model.diff(gm, model.grid_to_model(g))
